@@ -1,4 +1,5 @@
 import Starcal.DivMod
+import Starcal.Bisect
 /-! Driver side of the small arithmetic streams (C19). -/
 namespace Starcal.Drv
 
@@ -14,6 +15,14 @@ def miscRequest (toks : List String) : String :=
     match a.toInt?, b.toInt? with
     | some x, some y =>
       if y == 0 then "bad-request" else s!"{goDiv x y} {goMod x y}"
+    | _, _ => "bad-request"
+  | ["bisect", v, l] =>
+    match v.toInt?, parseInts l with
+    | some x, some a => toString (bisectLeft a x)
+    | _, _ => "bad-request"
+  | ["intmin", a, b] =>
+    match a.toInt?, b.toInt? with
+    | some x, some y => toString (intMin x y)
     | _, _ => "bad-request"
   | _ => "bad-request"
 
